@@ -1,154 +1,7 @@
 ------------------------------ MODULE XlOps ------------------------------
-(* C02 - Excel's scalar operator semantics, written from the rule itself.  *)
-EXTENDS XlValue, Json, IOUtils
-
-BinOps == {"+", "-", "*", "/", "^", "&", "=", "<>", "<", "<=", ">", ">="}
-UnOps == {"u-", "u+", "%"}
-ArithOps == {"+", "-", "*", "/", "^"}
-CmpOps == {"=", "<>", "<", "<=", ">", ">="}
-
-\* Coercion of one scalar operand for arithmetic: a number or an error value.
-Coerce(v) ==
-  CASE v.k = "n" -> v
-    [] v.k = "b" -> IF v.b THEN One ELSE Zero
-    [] v.k = "z" -> Zero
-    [] v.k = "t" -> LET p == ParseNumber(v.s)
-                    IN IF p = NotNumeric THEN Err("VALUE") ELSE p
-    [] v.k = "e" -> v
-
-FromRanged(r) == IF r = Overflow THEN Err("NUM") ELSE r
-
-\* x ^ k for a non-zero number x and a non-zero integer k.  Exact while the
-\* mantissa stays small; beyond that only what is certain is stated: the sign,
-\* and overflow (#NUM!) / underflow (0) where the magnitude bounds decide it.
-SmallPow(x, ak) ==    \* x^ak can be computed exactly inside 31-bit integers
-  LET m == Max2(Abs(x.n), x.d)
-  IN \/ ak <= 1
-     \/ ak = 2 /\ m <= 30000
-     \/ ak = 3 /\ m <= 1000
-     \/ ak = 4 /\ m <= 150
-
-PowInt(x, k) ==
-  LET ak == Abs(k)
-      sg == IF x.n < 0 /\ ak % 2 = 1 THEN -1 ELSE 1
-      ax == NumE(Abs(x.n), x.d, 0)
-      c1 == NCmp(ax, One)                         \* mantissa against 1
-      grows == IF x.e # 0 THEN (x.e > 0) = (k > 0)  \* does |x^k| grow?
-               ELSE (c1 > 0) = (k > 0)
-  IN IF x.e = 0 /\ c1 = 0 THEN IntV(sg)
-     ELSE IF x.e = 0 /\ SmallPow(x, ak) THEN
-        (LET p == NPowNat(x, ak) IN IF k > 0 THEN p ELSE NDiv(One, p))
-     ELSE IF x.e # 0 THEN
-        (IF ak = 1 THEN (IF k > 0 THEN x ELSE FromRanged(NDiv(One, x)))
-         ELSE IF grows THEN Err("NUM") ELSE Zero)
-     ELSE IF grows THEN
-        (IF ak <= 154 /\ NCmp(ax, IntV(100)) <= 0 /\ NCmp(ax, Num(1, 100)) >= 0 THEN Approx(sg)
-         ELSE IF ak >= 1100 /\ (NCmp(ax, IntV(2)) >= 0 \/ NCmp(ax, Num(1, 2)) <= 0) THEN Err("NUM")
-         ELSE AnyOf(<<Approx(sg), Err("NUM")>>))
-     ELSE
-        (IF ak <= 154 /\ NCmp(ax, IntV(100)) <= 0 /\ NCmp(ax, Num(1, 100)) >= 0 THEN Approx(sg)
-         ELSE AnyOf(<<Approx(sg), Zero>>))
-
-\* x ^ y on numbers
-Pow(x, y) ==
-  IF x.n = 0 THEN
-     (IF y.n = 0 THEN Err("NUM") ELSE IF y.n < 0 THEN Err("DIV0") ELSE Zero)
-  ELSE IF y.n = 0 THEN One
-  ELSE IF y.e > 0 THEN                      \* a huge (hence even integer) exponent
-     (LET c == NCmp(NumE(Abs(x.n), x.d, x.e), One)
-      IN IF c = 0 THEN One
-         ELSE IF (c > 0) = (y.n > 0) THEN Err("NUM") ELSE Zero)
-  ELSE IF y.e < 0 THEN                      \* a tiny, non-integer exponent
-     (IF x.n < 0 THEN Err("NUM") ELSE IF x = One THEN One ELSE Approx(1))
-  ELSE IF y.d = 1 THEN                      \* integer exponent
-     PowInt(x, y.n)
-  ELSE                                      \* fractional exponent
-     IF x.n < 0 THEN Err("NUM")
-     ELSE IF x = One THEN One
-     ELSE LET mag == (x.e * y.n) \div y.d   \* decimal exponent of the result
-          IN IF mag > 308 THEN Err("NUM")
-             ELSE IF mag < -323 THEN Zero
-             ELSE Approx(1)
-
-Arith(op, x, y) ==
-  CASE op = "+" -> NAdd(x, y)
-    [] op = "-" -> NSub(x, y)
-    [] op = "*" -> FromRanged(NMul(x, y))
-    [] op = "/" -> IF y.n = 0 THEN Err("DIV0") ELSE FromRanged(NDiv(x, y))
-    [] op = "^" -> Pow(x, y)
-
-\* comparison: numbers < text < logicals; a blank adopts the other side's kind
-Rank(v) == CASE v.k = "n" -> 0 [] v.k = "t" -> 1 [] v.k = "b" -> 2
-
-Adopt(v, other) ==
-  IF v.k # "z" THEN v
-  ELSE CASE other.k = "t" -> Txt(<<>>)
-         [] other.k = "b" -> Bool(FALSE)
-         [] OTHER -> Zero
-
-Cmp3(a0, b0) ==   \* -1 / 0 / 1 on non-error scalars
-  LET a == Adopt(a0, b0)
-      b == Adopt(b0, a0)
-  IN IF Rank(a) # Rank(b) THEN (IF Rank(a) < Rank(b) THEN -1 ELSE 1)
-     ELSE CASE a.k = "n" -> NCmp(a, b)
-            [] a.k = "t" -> TextCmp(a.s, b.s)
-            [] a.k = "b" -> (IF a.b = b.b THEN 0 ELSE IF b.b THEN -1 ELSE 1)
-
-CmpHolds(op, c) ==
-  CASE op = "=" -> c = 0
-    [] op = "<>" -> c # 0
-    [] op = "<" -> c < 0
-    [] op = "<=" -> c <= 0
-    [] op = ">" -> c > 0
-    [] op = ">=" -> c >= 0
-
-\* The binary operators on scalars.
-Bin(op, a, b) ==
-  IF a.k = "e" THEN a                       \* the left-most error, unchanged
-  ELSE IF b.k = "e" THEN b
-  ELSE IF op \in ArithOps THEN
-     (LET x == Coerce(a)
-          y == Coerce(b)
-      IN IF x.k = "e" THEN x ELSE IF y.k = "e" THEN y ELSE Arith(op, x, y))
-  ELSE IF op = "&" THEN Txt(Display(a) \o Display(b))
-  ELSE Bool(CmpHolds(op, Cmp3(a, b)))
-
-Un(op, a) ==
-  IF a.k = "e" THEN a
-  ELSE IF op = "u+" THEN (IF a.k = "z" THEN Zero ELSE a)   \* unary plus leaves its operand as it is
-  ELSE LET x == Coerce(a)
-       IN IF x.k = "e" THEN x
-          ELSE IF op = "u-" THEN NNeg(x)
-          ELSE FromRanged(NDiv(x, IntV(100)))
-
------------------------------------------------------------------------------
-(* The pool of operand values of property C02 and the theorems TLC checks   *)
-(* over its complete cross product.                                          *)
-S(str) == str   \* (documentation only)
-
-Pool == <<
-  IntV(0), IntV(1), IntV(-1), IntV(2), Num(1, 2), Num(1, 4), Num(3, 2), Num(-5, 2),
-  IntV(3), IntV(100),
-  NumE(1, 1, 200), NumE(1, 1, -200), NumE(-1, 1, 200),
-  Txt(<<51>>),                 \* "3"
-  Txt(<<32, 51, 32>>),         \* " 3 "
-  Txt(<<49, 101, 51>>),        \* "1e3"
-  Txt(<<45, 48, 46, 53>>),     \* "-0.5"
-  Txt(<<97>>),                 \* "a"
-  Txt(<<65>>),                 \* "A"
-  Txt(<<98>>),                 \* "b"
-  Txt(<<66>>),                 \* "B"
-  Txt(<<97, 98>>),             \* "ab"
-  Txt(<<49, 44, 53>>),         \* "1,5"
-  Txt(<<>>),                   \* ""
-  Bool(TRUE), Bool(FALSE), Blank,
-  Err("NULL"), Err("DIV0"), Err("VALUE"), Err("REF"), Err("NAME"), Err("NUM"), Err("NA")
->>
-PoolIdx == 1..Len(Pool)
-PoolSet == {Pool[i] : i \in PoolIdx}
-NonErr == {v \in PoolSet : v.k # "e"}
-
-WellFormedResult(r) == r.k \in {"n", "t", "b", "e", "approx", "any"}
+(* C02 - the one-step machine over XlOpsDef: a case is (operator, operands), *)
+(* the step applies the operator.  One state per case of the pool.           *)
+EXTENDS XlOpsDef
 
 VARIABLES vop, va, vb, res        \* one case: operator, operands, result
 
@@ -187,42 +40,6 @@ CoercionConsistent ==
      LET x == Coerce(va)  y == Coerce(vb)
      IN IF x.k = "e" \/ y.k = "e" THEN res = Err("VALUE")
         ELSE res = Bin(vop, x, y)
-
-\* --- theorems over the whole pool, evaluated once (ASSUME) ---
-B(opn, x, y) == Bin(opn, x, y).b
-
-TotalOrder ==
-  \A a \in NonErr : \A b \in NonErr :
-     /\ B("<=", a, b) = (B("<", a, b) \/ B("=", a, b))
-     /\ B(">=", a, b) = (B(">", a, b) \/ B("=", a, b))
-     /\ B("<>", a, b) = ~B("=", a, b)
-     /\ B(">", a, b) = B("<", b, a)
-     /\ (B("<", a, b) \/ B("=", a, b) \/ B(">", a, b))
-     /\ ~(B("<", a, b) /\ B(">", a, b))
-     /\ ~(B("<", a, b) /\ B("=", a, b))
-     /\ B("=", a, a)
-     /\ (B("=", a, b) => B("=", b, a))
-
-\* transitivity over non-blank values (a blank takes the kind of its partner,
-\* so it is equal to 0, "" and FALSE at once and is excluded here)
-Transitive ==
-  LET V == {v \in NonErr : v.k # "z"}
-  IN \A a \in V : \A b \in V : \A c \in V :
-        /\ (B("<", a, b) /\ B("<", b, c) => B("<", a, c))
-        /\ (B("=", a, b) /\ B("=", b, c) => B("=", a, c))
-
-RankMonotone ==
-  \A a \in NonErr : \A b \in NonErr :
-     (a.k = "n" /\ b.k = "t") \/ (a.k = "t" /\ b.k = "b") \/ (a.k = "n" /\ b.k = "b")
-        => B("<", a, b)
-
-NegInvolution ==
-  \A a \in NonErr : LET x == Coerce(a) IN x.k = "n" => Un("u-", Un("u-", a)) = x
-
-ASSUME TotalOrder
-ASSUME Transitive
-ASSUME RankMonotone
-ASSUME NegInvolution
 
 \* --- obligations: the whole table, written once for the replay harness ---
 Table ==
